@@ -428,6 +428,23 @@ func genSegCrash(c *ctx, emit func(string)) {
 		next := base
 		ops := []string{hdr}
 		depth := 1 + r.Intn(3)
+		if r.Intn(5) == 0 {
+			// the very first batch is big enough to seal the segment on its own and is torn
+			// with its index and commit frames on disk but part of an entry missing
+			n := limit/2 + 64
+			b1 := payload(r, n)
+			b2 := payload(r, n)
+			ops = append(ops, fmt.Sprintf("A 2 %x %s %x %s", next, b1, next+1, b2))
+			nchunks := (32 + 2*(n+16) + 64) / 8
+			mask := new(big.Int)
+			for k := 0; k < nchunks+64; k++ {
+				mask.SetBit(mask, k, 1)
+			}
+			mask.SetBit(mask, 5+r.Intn(n/8), 0) // one payload chunk of the first entry is lost
+			ops = append(ops, "C "+mask.Text(16), "L", "Q", fmt.Sprintf("G %x", next), fmt.Sprintf("A 1 %x %s", next, payload(r, 9)), "L", "Q", "F", "D 0 0")
+			emit(strings.Join(ops, " "))
+			continue
+		}
 		for d := 0; d < depth; d++ {
 			for b := r.Intn(3); b > 0; b-- {
 				ops = append(ops, genBatch(r, &next, 64))
